@@ -65,13 +65,13 @@ def _verus_codemap(rep, cov):
             payload = dict(unit=res['unit'], function=f['function'], kind=f['kind'], clause=f['clause'], verus_output=f['verus_output'])
             if fi:
                 payload['failing_input'] = fi
-            rep.violation('verus:%s:%s:%s' % (res['unit'], f['function'], f['kind']), f['obligation'], payload, found)
-            nviol += 1
+            if rep.violation('verus:%s:%s:%s' % (res['unit'], f['function'], f['kind']), f['obligation'], payload, found):
+                nviol += 1
         cov['discharged'] += res['obligations'] - len(seen)
     if found and not (res and res['failures']):
-        rep.violation('concrete:codemap_model', 'CodeMap::get resolves every address to the unique registered range containing it (concrete model check on the cut code)',
-                      dict(failing_input=fi), True)
-        nviol += 1
+        if rep.violation('concrete:codemap_model', 'CodeMap::get resolves every address to the unique registered range containing it (concrete model check on the cut code)',
+                      dict(failing_input=fi), True):
+            nviol += 1
     cov['codemap_concrete_search'] = search
     return nviol
 
